@@ -239,6 +239,23 @@ def native_cut(ctx, spec):
                     pos += 9
             pos += 13
             ends.append(pos); i = pos
+        # the complete journal must reopen to the final state (a writer that frames units wrongly shows up here)
+        full = os.path.join(work, 'img-full')
+        shutil.copytree(os.path.join(work, 'db'), full)
+        spf, outf = ctx.run_scenario('\n'.join([f'dir {full}', 'open workers=0', 'ks a', 'ks b', 'dump a', 'dump b', 'close']) + '\n', tag='cut-full')
+        rsf = [(cc, r) for _i, cc, r in outf]
+        if any(cc == 'CRASH' for cc, _r in rsf):
+            return True, spf, 'reopening a cleanly closed database crashed: ' + rsf[-1][1][-200:]
+        opf = [r for cc, r in rsf if cc == 'open']
+        if opf and opf[0] != 'ok':
+            return True, spf, f'reopening a cleanly closed database with {len(writes)} journaled operations fails: {opf[0]}'
+        dmf = [r for cc, r in rsf if cc == 'dump']
+
+        def fmt0(d):
+            return '[' + ','.join(f'{k}:{d[k] if d[k] else "-"}' for k in sorted(d)) + ']'
+        if dmf and (dmf[0] != fmt0(states[-1][0]) or dmf[1] != fmt0(states[-1][1])):
+            return True, spf, f'after a clean close and reopen: a={dmf[0]} b={dmf[1]}, expected a={fmt0(states[-1][0])} b={fmt0(states[-1][1])}'
+        shutil.rmtree(full, ignore_errors=True)
         if len(ends) != len(writes):
             return False, spath, f'could not parse the real journal into {len(writes)} units (got {ends})'
         total = ends[-1]
